@@ -40,6 +40,10 @@ def partition_class(kind, K):
         return RandomBinaryPartition
     if kind == "dbin":
         return DimensionBinaryPartition
+    if K == 3:
+        # the library's own default arity: hand over the class itself, as a user would (state kept on the class object is then
+        # shared by every instance of the process)
+        return KaryPartition if kind == "kary" else RandomKaryPartition
     key = (kind, K)
     if key not in _KCACHE:
         base = KaryPartition if kind == "kary" else RandomKaryPartition
@@ -135,6 +139,8 @@ def reward_source(pattern, seed, RU=64):
     if pattern in ("ramp", "rampdown"):   # monotone in the first coordinate: greedy searches hug a face of the box
         sgn = 1.0 if pattern == "ramp" else -1.0
         return lambda t, x: sgn * float(x[0]) if isinstance(x, (list, tuple)) and len(x) else 0.0
+    if pattern == "climb":   # rewards that keep growing with time: the newest cell is always the most promising, the tree gains a level every few rounds
+        return lambda t, x: 10.0 * t
     if pattern == "peak":  # a smooth objective of the relative position + grid noise, rounded to the grid
         def f(t, x):
             return 0.0
